@@ -36,7 +36,10 @@ EXCLUDE = {
 FORCE_NUM_ONLY = {"Ḋ": "its string overloads push a variable number of copies onto the stack (documented), which is not a lifting", "%": "the str-lst overload is a formatter, not a lifting", "E": "string overload evaluates text",
                   "ƈ": "string overloads are random choices", "Ǎ": None, "∆q": "strings are parsed as polynomials (slow, sympy)",
                   "∆Q": "strings are parsed as polynomials (slow, sympy)", "e": "str-str overload is a regex search"}
-KEEP_ANY = {"≤", "≥"}
+KEEP_ANY = {"≤", "≥", "øb", "øB", "øḃ", "øḂ", "ḃ", "ċ"}
+# monads documented as `any` that treat numbers and strings alike as scalars (their yaml tests vectorise over lists)
+ALSO_WITHOUT_FUNCTIONS = {"r"}
+ANY_IS_SCALAR = {"øb", "øB", "øḃ", "øḂ", "ḃ", "ċ"}
 _TABLE = None
 
 
@@ -57,6 +60,10 @@ def table():
         ar = els[k][1]
         ovs = [o.split("-") for o in e.get("overloads", {})]
         types = {t for o in ovs for t in o}
+        if k in ALSO_WITHOUT_FUNCTIONS:
+            # documented vectorising; its function overload is never reached with number / string arguments
+            ovs = [o for o in ovs if "fun" not in o]
+            types = {t for o in ovs for t in o}
         if "lst" in types or "fun" in types or ("any" in types and k not in KEEP_ANY):
             skipped[k] = "an overload takes a list / function / any"
             continue
@@ -73,7 +80,9 @@ def table():
                 if len(o) == ar:
                     t = o[pos]
                     ks.add("str" if t in ("str", "string") else "num" if t == "num" else "any")
-            if not ks or "any" in ks:
+            if k in ANY_IS_SCALAR:
+                ks = {"num", "str"}
+            elif not ks or "any" in ks:
                 ks = {"num"}
             if k in FORCE_NUM_ONLY and FORCE_NUM_ONLY[k] is not None:
                 ks = {"num"}
@@ -116,7 +125,9 @@ def scalar_result(op, specs):
         st_ = run_el(op, [harness.build_value(s) for s in specs])
         # items of a vectorised result always pass through vyxalify (LazyList does it per item),
         # which is the interpreter's own representation normaliser (float -> exact rational etc.)
-        return [norm(harness.vyxal.helpers.vyxalify(x), cap=2000) for x in st_]
+        # (a Python bool is not a Vyxal value: vyxalify would turn it into the string "True"; leave it, so that an
+        #  element whose scalar result is a bool does not agree with its vectorised "True" by accident)
+        return [norm(x if isinstance(x, bool) else harness.vyxal.helpers.vyxalify(x), cap=2000) for x in st_]
     except (harness.FuelExhausted, harness.Inconclusive):
         raise Discard("item-wise application ran out of budget")
     except Exception as e:  # noqa: BLE001
